@@ -132,8 +132,9 @@ def check_table_history(ctx, prog, stats):
 
 def run(ctx):
     stats = {"evaluations": 0, "nontrivial": set(), "hist": collections.Counter(), "table_hist": collections.Counter(),
-             "table_histories": 0, "function_histories": 0}
+             "table_histories": 0, "function_histories": 0, "normalizer_repeats": 0}
     samples = []
+    check_normalizer_history(ctx, stats)
     n = 40 if ctx.quick() else 1500
     for _ in range(n):
         prog = gen_history_program(ctx.rng)
@@ -151,6 +152,46 @@ def run(ctx):
             "samples": samples, "function_histories": stats["function_histories"], "table_histories": stats["table_histories"],
             "call_outcomes": dict(stats["hist"]), "table_outcomes": dict(stats["table_hist"]),
             "traces_validated_against_impl": stats["evaluations"]}
+
+
+def check_normalizer_history(ctx, stats):
+    """the table of generic-type handlers (types.py TypeNormalizer) is a TypeMap too: asking it twice about a generic type it
+    does not know must give the same answer both times -- also through a Callable-annotated method, whose check
+    normalises the annotations of the callback it receives.  Property oracle alone (outside the modelled tables)."""
+    import collections.abc as cabc, typing
+    import ovld as _ov
+    from ovld.types import normalize_type
+
+    def outcome(thunk):
+        try:
+            return ["value", repr(thunk())[:60]]
+        except Exception as e:  # noqa
+            return [type(e).__name__, str(e)[:60]]
+    for t in (cabc.Iterable[int], cabc.Iterator[str], typing.Awaitable[int]):
+        a = outcome(lambda: normalize_type(t, None))
+        b = outcome(lambda: normalize_type(t, None))
+        stats["evaluations"] += 2
+        stats["normalizer_repeats"] += 1
+        if a != b:
+            ctx.violation(f"normalize_type({t}) answers {a} the first time and {b} the second", {"normalizer": repr(t)})
+            return
+    f = _ov.Ovld(name="f")
+
+    def m(cb: typing.Callable[[int], int]):
+        return "callable"
+
+    def o(cb: object):
+        return "other"
+    f.register(m)
+    f.register(o)
+
+    def callback(xs: cabc.Iterable[int]) -> int:
+        return 0
+    first = outcome(lambda: f(callback))
+    second = outcome(lambda: f(callback))
+    stats["evaluations"] += 2
+    if first != second:
+        ctx.violation(f"a Callable-annotated method called twice with the same callback answers {first}, then {second}", {"normalizer": "callable-callback"})
 
 
 def replay(ctx, payload):
